@@ -1,4 +1,5 @@
 import Verif.Lemmas.C15
+import Verif.Lemmas.Calendar
 /-! # C15 — Rendering prints every entry once, in time order, for any input
 
 Theorems over `Render.render` (model of `renderResult`, tied to the `verif`-tagged build of cmd/docker-logql by the C15 correspondence, byte for byte) with the palette index expression and palette length REGENERATED from query.go / color.go by a go/ast translation (`Gen.paletteIndex`, `Gen.paletteLen`). -/
@@ -98,5 +99,11 @@ theorem C15_rfc3339Nano_bytes :
     ∀ (t b : Nat), b ∈ rfc3339Nano t → 48 ≤ b ∧ b ≤ 57 ∨ b = 45 ∨ b = 84 ∨ b = 58 ∨ b = 46 ∨ b = 90 :=
   @rfc3339Nano_bytes
 
+/-- **C15 (the timestamp column is exact)**: the RFC3339-nanosecond text printed for an entry denotes the
+entry's instant to the nanosecond, for every instant of the years 1970–9999 (hand-added; calendar proof
+in Lemmas/Calendar.lean) -/
+theorem C15_timestamp_denotes_entry_time (t : Nat) (ht : t < 253402300800000000000) :
+    Rfc3339.parse (rfc3339Nano t) = some (t : Int) :=
+  Calendar.rfc3339_roundtrip t ht
 
 end Render.C15
